@@ -10,6 +10,12 @@ sys.path.insert(0, os.path.dirname(os.path.dirname(os.path.abspath(__file__))))
 from lib.common import EXIT_HARNESS, Check  # noqa: E402
 
 
+import faulthandler
+import signal
+
+faulthandler.register(signal.SIGUSR1, all_threads=True)  # `kill -USR1 <pid>` dumps the stacks of a check that seems stuck
+
+
 def main() -> int:
     ap = argparse.ArgumentParser()
     ap.add_argument("pid")
